@@ -1013,7 +1013,7 @@ def _len(v):
         return v.shape[0]
     if isinstance(v, SList):
         return simp(I(v.n) + len(v.tail))
-    if isinstance(v, PList):
+    if isinstance(v, PList) or type(v).__name__ == 'SPyr':
         return v.length()
     raise Unsupported('len(%r)' % (v,))
 
@@ -1025,7 +1025,18 @@ def _range(*a):
         return SymRange(0, a[0])
     if len(a) == 2:
         return SymRange(a[0], a[1])
+    if len(a) == 3 and is_conc(a[2]) and a[2] == -1:
+        r = SymRange(a[0], a[1])
+        r.step = -1
+        return r
     raise Unsupported('symbolic range with step')
+
+
+def _zip(*a):
+    if any(type(q).__name__ in ('SPyr', 'SymRange', 'SList') for q in a):
+        from .modules_dtcwt import SymZip
+        return SymZip(list(a))
+    return list(zip(*a))
 
 
 def _tuple(v=()):
@@ -1150,7 +1161,7 @@ def _abs(v):
 def builtins(it):
     from .interp import ExcTok
     b = {'isinstance': _isinstance(it), 'len': _len, 'tuple': _tuple, 'list': _list, 'range': _range,
-         'zip': lambda *a: list(zip(*a)), 'dict': _dict, 'int': lambda v: v, 'float': lambda v: v,
+         'zip': _zip, 'dict': _dict, 'int': lambda v: v, 'float': lambda v: v,
          'str': str, 'max': _minmax(False), 'min': _minmax(True), 'abs': _abs, 'print': lambda *a, **k: None,
          'True': True, 'False': False, 'None': None,
          'setattr': lambda o, k, v: obj_setattr(it, o, k, v), 'getattr': lambda o, k, *d: _getattr(it, o, k, *d), 'hasattr': lambda o, k: _hasattr(it, o, k),
